@@ -257,31 +257,33 @@ def run(ctx):
         mb = [f.origin_call(b, t) for b, t in f.calls() if t.get("rpath") in rm][0]
         bad = []
         zero_paths = div_paths = 0
-        for p in enum_paths(f):
-            atoms = path_atoms(f, p)
-            r = path_return(f, p, atoms)
+        rh_stop = lambda n: n in rh or n in rm
+        hb_s, mb_s = strip_site(hb), strip_site(mb)
+
+        def hits_zero(p):
+            for a in p.atoms:
+                if a[0] == "bool" and a[1][0] == "binop" and a[1][1] == "Eq" and {strip_site(a[1][2]), strip_site(a[1][3])} == {hb_s, ("const", 0, "u64")}:
+                    return a[2]
+            return None
+        for p in ipaths(F, f, stop=rh_stop, depth=2):
+            r = p.ret
+            hz = hits_zero(p)
             if r[0] == "const" and r[1] == 0:
                 zero_paths += 1
-                implies = False
-                for a in atoms:
-                    if a[0] == "bool" and a[1][0] == "binop" and a[1][1] == "Eq" and {strip_site(a[1][2]), strip_site(a[1][3])} == {strip_site(hb), ("const", 0, "u64")} and a[2]:
-                        implies = True
-                if not implies:
+                if hz is not True:
                     bad.append(("returns 0 without having established hits == 0", p))
             else:
                 div_paths += 1
-                ok = (r[0] == "binop" and r[1] == "Div" and strip_site(strip_casts(r[2])) == strip_site(hb)
+                ok = (r[0] == "binop" and r[1] == "Div" and strip_site(strip_casts(r[2])) == hb_s
                       and strip_casts(r[3])[0] == "binop" and strip_casts(r[3])[1] == "Add"
-                      and {strip_site(strip_casts(r[3])[2]), strip_site(strip_casts(r[3])[3])} == {strip_site(hb), strip_site(mb)})
+                      and {strip_site(strip_casts(r[3])[2]), strip_site(strip_casts(r[3])[3])} == {hb_s, mb_s})
                 if not ok:
                     bad.append(("ratio is not hits / (hits + misses): %s" % fmt(r), p))
-                # division by zero excluded: hits != 0 on this path
-                nz = any(a[0] == "bool" and a[1][0] == "binop" and a[1][1] == "Eq" and {strip_site(a[1][2]), strip_site(a[1][3])} == {strip_site(hb), ("const", 0, "u64")} and not a[2] for a in atoms)
-                if not nz:
+                if hz is not False:
                     bad.append(("division path not guarded by hits != 0", p))
         ctx.check(not bad and div_paths >= 1, "R16.5", "%s|zero-implies-no-hits" % f.name,
                   "hit_ratio returns 0 only on a path that established hits == 0, and hits/(hits+misses) otherwise (%d zero path(s), %d ratio path(s))" % (zero_paths, div_paths),
-                  f.where(), "; ".join("%s via %s" % x for x in bad[:3]))
+                  f.where(), "; ".join("%s %s" % (w, q.show()) for w, q in bad[:3]))
 
 
 def check_delta_helper(ctx, g, wadd):
